@@ -78,8 +78,13 @@ func TestVerifC14CLI(t *testing.T) {
 	os.WriteFile(filepath.Join(proj, "go.mod"), []byte("module example.com/p\n\ngo 1.21\n"), 0o644)
 	os.WriteFile(filepath.Join(proj, "sub", "f.go"), []byte("package sub\n"), 0o644)
 	reserved := map[string]bool{"/tmp": true, "/proc": true, "/dev": true}
+	// symbolic links whose target IS a reserved path: not reserved by spelling themselves, but a
+	// request list may name the link first and the reserved path afterwards
+	os.Symlink("/tmp", filepath.Join(root, "linkTmp"))
+	os.Symlink("/dev", filepath.Join(root, "linkDev"))
 	menu := []string{
 		proj, filepath.Join(proj, "sub", "f.go"), "sub/f.go", ".",
+		filepath.Join(root, "linkTmp"), filepath.Join(root, "linkDev"),
 		"/tmp", "/tmp/", "/proc", "/dev", "/usr/../dev/", "/tmp/../tmp", "tmp", "proc", "./dev", "../tmp",
 	}
 	cwds := []string{proj, "/", "/usr"}
